@@ -25,6 +25,7 @@ func init() {
 	vrt.Register("C12_error_result_positions", ErrorResultPositions)
 	vrt.Register("C12_fresh_options_per_call", FreshOptionsPerCall)
 	vrt.Register("C12_chained_calls", ChainedCalls)
+	vrt.Register("C12_receiver_arguments", ReceiverArguments)
 }
 
 func itoa(n int) string { return strconv.Itoa(n) }
@@ -656,6 +657,50 @@ func ChainedCalls() {
 	vrt.Assert(err == nil, "a chained helper call renders")
 	vrt.Assert(strings.Join(r.log, ";") == c.log, "each call of a chain receives its own arguments and its own block (the head none)")
 	vrt.Assert(out == "["+c.out+"]", "the value of the chain is the last call's first result")
+	vrt.Cover("done")
+}
+
+// ---- the arguments of a method called on an indexed element or on a call result
+// are the caller's: the names the path itself starts with (the collection, the
+// function) mean in them what they mean everywhere else in the tag
+type elA struct{ N int }
+
+func (e elA) Sub(o elA) int            { return e.N - o.N }
+func (e elA) Len(os []elA) int         { return e.N + len(os) }
+func (e elA) Kid(k int) elA            { return elA{N: e.N + k} }
+func (e elA) Pick(f func(int) elA) int { return e.N - f(7).N }
+
+func ReceiverArguments() {
+	a, b := vrt.Int(), vrt.Int()
+	ctx := plush.NewContext()
+	xs := []elA{{N: a}, {N: b}}
+	ctx.Set("xs", xs)
+	ctx.Set("m", map[string]elA{"k": {N: a}, "l": {N: b}})
+	ctx.Set("o", struct{ Xs []elA }{xs})
+	ctx.Set("f", func(i int) elA { return elA{N: i} })
+	ctx.Set("i", 1)
+	cases := []struct {
+		in   string
+		want int
+	}{
+		{"xs[0].Sub(xs[1])", a - b},
+		{"xs[1].Sub(xs[0])", b - a},
+		{"xs[0].Len(xs)", a + 2},
+		{"xs[i].Sub(xs[0])", b - a},
+		{"m[\"k\"].Sub(m[\"l\"])", a - b},
+		{"o.Xs[0].Sub(o.Xs[1])", a - b},
+		{"xs[0].Kid(1).Sub(xs[1])", a + 1 - b},
+		{"f(3).Sub(f(4))", -1},
+		{"f(3).Pick(f)", -4},
+		{"f(3).Kid(2).Sub(f(4))", 1},
+		{"xs[0].Sub(f(4))", a - 4},
+		{"f(5).Sub(xs[1])", 5 - b},
+		{"f(len(xs)).Len(xs)", 4},
+	}
+	c := cases[vrt.Choice(len(cases))]
+	got, err := render("[<%= "+c.in+" %>]", ctx)
+	vrt.Assert(err == nil, "a method call on an element or a result with arguments naming the collection or the function renders: "+c.in)
+	vrt.Assert(got == "["+itoa(c.want)+"]", "each argument is passed with its value unchanged: "+c.in)
 	vrt.Cover("done")
 }
 
